@@ -4,6 +4,7 @@ Inputs (read from the working tree of /repo, cwd = /repo):
   data/cpp/template/operation/{binary_operator,unary_operator,binary_in,ternary_operator}.j2, data/cpp/template/expression/group.j2
   data/i18n.yml            (the `i18n('mod', 'local')` atoms of the templates are resolved exactly like view/helper/helper.py:45-47)
   data/grammar.lark        (the expression ladder or_test .. factor and its operator terminals)
+  rogw/tranp/implements/cpp/transpiler/py2cpp.py   (class CppOperatorPrecedences: the emitter's C++ precedence table, read with `ast`)
 
 The generator understands exactly the skeleton these files have today:
   {%- if C -%} line {%- elif C -%} line ... [{%- else -%} line] {%- endif -%}      or a single line without control tags,
@@ -307,6 +308,37 @@ def parse_ladder(path: str = 'data/grammar.lark') -> tuple[list[dict[str, Any]],
 
 
 # ---------------------------------------------------------------------------------------------
+# C++ precedence table of the emitter (py2cpp.py, class CppOperatorPrecedences)
+
+
+def parse_precedences(path: str = 'rogw/tranp/implements/cpp/transpiler/py2cpp.py') -> tuple[int, list[tuple[str, int]]]:
+	"""-> (unary, [(operator token, precedence)]) read from the class body with `ast` (literal values only)"""
+	import ast
+	with open(path, encoding='utf-8') as f:
+		tree = ast.parse(f.read())
+	cls = [n for n in tree.body if isinstance(n, ast.ClassDef) and n.name == 'CppOperatorPrecedences']
+	if len(cls) != 1:
+		raise ValueError(f'{path}: class CppOperatorPrecedences not found')
+	unary: int | None = None
+	binary: list[tuple[str, int]] | None = None
+	for st in cls[0].body:
+		if isinstance(st, ast.AnnAssign) and isinstance(st.target, ast.Name) and st.value is not None:
+			if st.target.id == 'unary':
+				unary = ast.literal_eval(st.value)
+			elif st.target.id == 'binary':
+				if not isinstance(st.value, ast.Dict):
+					raise ValueError(f'{path}: CppOperatorPrecedences.binary is not a dict literal')
+				binary = [(ast.literal_eval(k), ast.literal_eval(v)) for k, v in zip(st.value.keys, st.value.values)]  # type: ignore[arg-type]
+	if not isinstance(unary, int) or binary is None or not all(isinstance(k, str) and isinstance(v, int) for k, v in binary):
+		raise ValueError(f'{path}: CppOperatorPrecedences.unary/binary not recognised')
+	# `precedence_of` must still be the plain lookup the model transcribes
+	meth = [n for n in cls[0].body if isinstance(n, ast.FunctionDef) and n.name == 'precedence_of']
+	if len(meth) != 1 or ast.unparse(meth[0].body[-1]) != 'return cls.binary.get(operator, cls.unary)':
+		raise ValueError(f'{path}: CppOperatorPrecedences.precedence_of changed')
+	return unary, binary
+
+
+# ---------------------------------------------------------------------------------------------
 # Lean output
 
 
@@ -410,6 +442,16 @@ def render() -> tuple[str, int]:
 	out.append(',\n'.join(f"  ⟨{lstr(lv['tag'])}, .{lv['kind']}, [{', '.join(lstr(o) for o in lv['ops'])}]⟩" for lv in levels))
 	out.append(']')
 	out.append('')
+	unary, binary = parse_precedences()
+	entries += len(binary) + 1
+	out.append('/-- py2cpp.py `CppOperatorPrecedences.unary` -/')
+	out.append(f'def cppPrecUnary : Nat := {unary}')
+	out.append('')
+	out.append('/-- py2cpp.py `CppOperatorPrecedences.binary` (operator token as the emitter sees it ↦ precedence, larger binds tighter) -/')
+	out.append('def cppPrecBinary : List (Str × Nat) := [')
+	out.append(',\n'.join(f'  ({lstr(k)}, {v})' for k, v in binary))
+	out.append(']')
+	out.append('')
 	out.append('end Tranp.Generated.CppTemplates')
 	return '\n'.join(out) + '\n', entries
 
@@ -420,4 +462,4 @@ def generate() -> list[dict[str, Any]]:
 	path = os.path.join(common.GENERATED_DIR, 'CppTemplates.lean')
 	changed = common.write_if_changed(path, text)
 	return [{'file': 'lean/Tranp/Generated/CppTemplates.lean', 'entries': entries, 'changed': changed,
-		'sources': [*TEMPLATES.values(), 'data/i18n.yml', 'data/grammar.lark']}]
+		'sources': [*TEMPLATES.values(), 'data/i18n.yml', 'data/grammar.lark', 'rogw/tranp/implements/cpp/transpiler/py2cpp.py (CppOperatorPrecedences)']}]
